@@ -301,7 +301,61 @@ theorem stress_fraction_bound (N : Nat) (h1 : 1 ≤ N) :
   rw [hc]
   exact ⟨rfl, hb.1, hb.2⟩
 
+/-- what `UpdateFromConfig` leaves in `(sampleRate, upperBound)` for a configured rate -/
+def updS (rate : Nat) : Stress :=
+  { sampleRate := (if rate = 0 then 1 else rate), upperBound := maxU64 / (if rate = 0 then 1 else rate) }
+
+theorem stress_update_updS (rate : Nat) : Stress.update rate = .ok (updS rate) := stress_update_eq rate
+
+theorem run_cons (r : Relief) (o : ROp) (os : List ROp) :
+    Relief.run (.ok r) (o :: os) = Relief.run (r.step o) os := rfl
+
+theorem lastRate_reload (a : Nat) (m : Mode) (rate : Nat) (os : List ROp) :
+    lastRate a (.reload m rate :: os) = lastRate rate os := rfl
+
+theorem lastRate_recalc (a : Nat) (os : List ROp) : lastRate a (.recalc :: os) = lastRate a os := rfl
+
+/-- Invariant of the long-lived instance: its `(sampleRate, upperBound)` are those a fresh instance
+gets for the most recently configured rate, whatever happened before. -/
+theorem relief_run_inv (ops : List ROp) (r : Relief) (a : Nat) (hr : Stress.update a = .ok r.s) :
+    ∃ r', Relief.run (.ok r) ops = .ok r' ∧ Stress.update (lastRate a ops) = .ok r'.s := by
+  induction ops generalizing r a with
+  | nil => exact ⟨r, rfl, hr⟩
+  | cons o os ih =>
+    cases o with
+    | reload m rate =>
+      have hu := stress_update_updS rate
+      have hstep : Relief.step r (.reload m rate) = .ok { r with mode := m, s := updS rate } := by
+        simp only [Relief.step, hu]
+      obtain ⟨r', h1, h2⟩ := ih { r with mode := m, s := updS rate } rate hu
+      refine ⟨r', ?_, ?_⟩
+      · rw [run_cons, hstep]; exact h1
+      · rw [lastRate_reload]; exact h2
+    | recalc =>
+      obtain ⟨r', h1, h2⟩ := ih { r with stressed := (match r.mode with | .always => true | _ => false) } a hr
+      refine ⟨r', ?_, ?_⟩
+      · rw [run_cons]; exact h1
+      · rw [lastRate_recalc]; exact h2
+
+/-- **history independence** (stress relief) — after ANY history of configuration reloads (any
+modes, any rates) and stressed/unstressed state changes, one long-lived `StressRelief` never
+panics and answers every hash value exactly as a freshly constructed instance configured with the
+most recently configured rate: the decision depends on the last configured rate only. -/
+theorem stress_history_independent (m₀ : Mode) (rate₀ : Nat) (ops : List ROp) (h : Nat) :
+    ∃ r, Relief.run (Relief.init m₀ rate₀) ops = .ok r ∧
+      .ok (r.s.get h) = stressSample (lastRate rate₀ ops) h := by
+  have hu := stress_update_updS rate₀
+  have hinit : Relief.init m₀ rate₀ = .ok { mode := m₀, stressed := false, s := updS rate₀ } := by
+    simp only [Relief.init, Relief.step, hu]
+  obtain ⟨r', h1, h2⟩ := relief_run_inv ops { mode := m₀, stressed := false, s := updS rate₀ } rate₀ hu
+  refine ⟨r', by rw [hinit]; exact h1, ?_⟩
+  unfold stressSample
+  rw [h2]
+
 /-! ## Non-vacuity: concrete values evaluated by the kernel -/
+example : (match Relief.run (Relief.init .always 10) [.recalc, .reload .always 2, .recalc] with
+    | .ok r => r.s.get 9223372036854775807 | _ => ⟨0, false, .stressDet⟩) =
+    { rate := 2, keep := true, reason := .stressDet } := by decide
 example : detSample 10 429496729 = .ok { rate := 10, keep := true, reason := .detChance } := by decide
 example : detSample 10 429496730 = .ok { rate := 10, keep := false, reason := .detChance } := by decide
 example : detSample 2147483648 1 = .ok { rate := 2147483648, keep := true, reason := .detChance } := by decide
